@@ -52,8 +52,39 @@ impl Sink {
     }
 }
 
+/// Non-ASCII strings that some case-folding scheme maps to `k` (long s, Kelvin sign, sharp s,
+/// ligatures, dotless i) and ASCII case variants: what key comparisons and look-ups answer for
+/// them must not depend on the feature set.
+fn key_probes(k: &str) -> Vec<String> {
+    let mut v = vec![k.to_ascii_uppercase()];
+    for (a, b) in [("s", "\u{17f}"), ("k", "\u{212a}"), ("ss", "\u{df}"), ("fi", "\u{fb01}"), ("i", "\u{131}"), ("ff", "\u{fb00}"), ("st", "\u{fb06}")] {
+        if k.contains(a) {
+            v.push(k.replacen(a, b, 1));
+            v.push(k.to_ascii_uppercase().replacen(&a.to_ascii_uppercase(), b, 1));
+        }
+    }
+    v
+}
+
 fn render<T: PurlShape>(p: &GenericPurl<T>) -> String {
-    let quals: Vec<String> = p.qualifiers().iter().map(|(k, v)| format!("{}={}", k.as_str(), v)).collect();
+    let mut quals: Vec<String> = p.qualifiers().iter().map(|(k, v)| format!("{}={}", k.as_str(), v)).collect();
+    let mut probes = String::new();
+    for (k, _) in p.qualifiers().iter().take(3) {
+        for probe in key_probes(k.as_str()) {
+            probes.push(if *k == probe.as_str() { 'E' } else { 'n' });
+            probes.push(match k.partial_cmp(&probe.as_str()) {
+                Some(std::cmp::Ordering::Less) => '<',
+                Some(std::cmp::Ordering::Equal) => '=',
+                Some(std::cmp::Ordering::Greater) => '>',
+                None => '?',
+            });
+            probes.push(if p.qualifiers().contains_key(probe.as_str()) { 'C' } else { 'a' });
+            probes.push(if p.qualifiers().get(probe.as_str()).is_some() { 'G' } else { 'a' });
+        }
+    }
+    if !probes.is_empty() {
+        quals.push(format!("[key probes {probes}]"));
+    }
     format!(
         "Ok({}|{:?}|{}|{:?}|{}|{:?}|{})",
         p.package_type().package_type(),
